@@ -9,7 +9,8 @@ package main
 //      the page table, not from the op) are compared with the Lean model (`lostPages`, `rehomed`).
 //      Oracles: C10.conserve.count (|free| + |mapped| + re-homed = |all pages|), C10.conserve.recovered
 //      (a lost page comes back), C10.conserve.lost_without_rehome (statement of `conservation_exact`).
-//      Scripted: the capacity leak of Remap (known finding C10.conserve.leak.remap_oom).
+//      Scripted: repeated Remap / Distribute of one buffer (repaired: the replaced pages are given back;
+//      before the repair: known finding C10.conserve.leak.remap_oom).
 //  (B) `c10 reg l2= cpub= gpub=` — Build + RegisterGPU with byte sizes that are not page multiples
 //      (the hypothesis `Cfg` of the invariant): free lists compared with the model; the overlap of the
 //      last page of a device with the next device is counted.
@@ -22,8 +23,8 @@ package main
 //      Oracles on (C) and (D), power-of-two devices: C10.buddy.conserve (free blocks + blocks of live
 //      allocations = the device, statement of `buddy_conservation`), C10.buddy.round_trip (everything
 //      given back ⇒ one whole-device block, no bit set, nothing tracked: `buddy_round_trip`),
-//      C10.buddy.free_crash (`buddy_legal_only_oom`). Scripted: allocateMultiplePages(0) loses a block
-//      for ever (known finding C10.buddy.round_trip.am0).
+//      C10.buddy.free_crash (`buddy_legal_only_oom`). Scripted: allocateMultiplePages(0) (repaired: takes
+//      nothing; before the repair it lost a block for ever, known finding C10.buddy.round_trip.am0).
 
 import (
 	"fmt"
@@ -87,19 +88,34 @@ func (c *c10cLost) step(op string) bool {
 	}
 	es := c.s.entries()
 	after := c10cKeyMap(es)
-	for key, p := range before {
-		if q, ok := after[key]; ok && q != p {
-			c.k++
-		}
-	}
-	switch strings.Fields(op)[0] {
-	case "remap", "dist", "mig", "apg":
-		c.rehome = true
-	}
 	free := c.s.freeMultiset()
 	live := map[uint64]bool{}
 	for _, e := range es {
 		live[e.pg.PAddr] = true
+	}
+	// a page-table entry whose physical page was replaced in place: the replaced page must be back on a free
+	// list (Remap / Distribute after the repair); it counts as not given back when it is in circulation nowhere
+	for key, p := range before {
+		if q, ok := after[key]; ok && q != p {
+			c.r.Count("conserve.entry_rehomed")
+			if free[p] == 0 && !live[p] {
+				c.k++
+			}
+		}
+	}
+	f := strings.Fields(op)
+	switch f[0] {
+	case "mig", "apg":
+		// AllocatePageWithGivenVAddr / page migration keep the replaced page out of circulation on purpose
+		// (the page migration controller still reads it)
+		c.rehome = true
+	case "remap", "dist":
+		// the allocator's record of a virtual address is keyed by the address only: with several processes
+		// it may belong to another process and the replaced page is then not given back (listed finding:
+		// mirror keyed by vaddr)
+		if c.s.npids > 1 {
+			c.rehome = true
+		}
 	}
 	var lost []string
 	now := map[uint64]bool{}
@@ -120,7 +136,7 @@ func (c *c10cLost) step(op string) bool {
 		case nfree+len(es)+c.k != len(c.all):
 			c.fail("C10.conserve.count", "%d free + %d mapped + %d re-homed != %d pages of the devices", nfree, len(es), c.k, len(c.all))
 		case !c.rehome && len(lost) > 0:
-			c.fail("C10.conserve.lost_without_rehome", "pages %s are neither free nor mapped although no Remap/Distribute/migration/AllocatePageWithGivenVAddr was executed", strings.Join(lost, ","))
+			c.fail("C10.conserve.lost_without_rehome", "pages %s are neither free nor mapped although no migration / AllocatePageWithGivenVAddr was executed and one process owns every page (Remap and Distribute must give the page they replace back)", strings.Join(lost, ","))
 		default:
 			for p := range c.lost {
 				if !now[p] {
@@ -169,12 +185,14 @@ func c10cLostRandom(r *Run, rng *Rng) {
 	c.finish()
 }
 
-// the capacity leak of Remap: one page is live all the time, the third Remap of it onto the 2-page GPU
-// it already lives on is an out-of-memory panic
+// the capacity leak of Remap (repaired): one page is live all the time; before the repair the third Remap of it
+// onto the 2-page GPU it already lives on was an out-of-memory panic (known finding C10.conserve.leak.remap_oom,
+// reported again if the old behaviour comes back). Now every Remap succeeds and nothing is lost; likewise a buffer
+// can be distributed over the GPUs any number of times.
 func c10cLeakWitness(r *Run) {
 	c := c10cNewLost(r, 12, 1, []int{2})
 	ok := true
-	for _, op := range []string{"init", "alloc 0 1000", "remap 0 1000 1000 1", "remap 0 1000 1000 1"} {
+	for _, op := range []string{"init", "alloc 0 1000", "remap 0 1000 1000 1", "remap 0 1000 1000 1", "remap 0 1000 1000 1"} {
 		if ok = c.step(op); !ok {
 			break
 		}
@@ -182,12 +200,61 @@ func c10cLeakWitness(r *Run) {
 	c.finish()
 	mapped := len(c.s.entries())
 	r.Checked("conserve.leak_witness")
-	if !ok && c.lastOut == "fault:oom" && mapped == 1 {
+	switch {
+	case !ok && c.lastOut == "fault:oom" && mapped == 1:
 		r.Failf("C10.conserve.leak.remap_oom", c.line(),
-			"Remap of a 1-page buffer onto the 2-page GPU it lives on panics `out of memory` at the second call: %d page mapped, %d pages of the device neither free nor mapped (each Remap / Distribute / migration overwrites the page-table entry and never returns the old physical page)",
+			"Remap of a 1-page buffer onto the 2-page GPU it lives on panics `out of memory`: %d page mapped, %d pages of the device neither free nor mapped (Remap / Distribute overwrite the page-table entry and never return the old physical page)",
+			mapped, len(c.lost))
+	case !ok || mapped != 1 || len(c.lost) != 0:
+		r.Failf("C10.conserve.leak.remap_witness", c.line(),
+			"repeated Remap of a 1-page buffer onto its own 2-page GPU: ok=%v out=%s, %d page(s) mapped, %d page(s) neither free nor mapped (expected: every call succeeds, one page mapped, nothing lost)",
+			ok, c.lastOut, mapped, len(c.lost))
+	default:
+		r.Count("conserve.leak_witness.repaired")
+	}
+	// Distribute: 2 GPUs of 4 pages, a 3-page buffer distributed over both GPUs six times
+	d := c10cNewLost(r, 12, 1, []int{4, 4})
+	ok = true
+	ops := []string{"init", "alloc 0 3000"}
+	for i := 0; i < 6; i++ {
+		ops = append(ops, "dist 0 1000 3000 1,2")
+	}
+	for _, op := range ops {
+		if ok = d.step(op); !ok {
+			break
+		}
+	}
+	d.finish()
+	r.Checked("conserve.dist_witness")
+	if !ok || len(d.s.entries()) != 3 || len(d.lost) != 0 {
+		r.Failf("C10.conserve.leak.distribute", d.line(),
+			"a 3-page buffer distributed six times over two 4-page GPUs: ok=%v out=%s, %d pages mapped, %d pages neither free nor mapped (every Distribute must give the replaced pages back)",
+			ok, d.lastOut, len(d.s.entries()), len(d.lost))
+	}
+}
+
+// page migration keeps the replaced page out of circulation (NOT repaired, listed finding
+// C10.conserve.leak.migration_oom): two GPUs of 2 pages, one page migrated to and fro — every
+// preparePageForMigration takes a fresh page on the target and the page it replaces is never given back (the page
+// migration controller still reads it when the call returns, and nothing releases it when the copy is done): the
+// fourth migration finds the target GPU exhausted with ONE page mapped on the whole system.
+func c10cMigLeakWitness(r *Run) {
+	c := c10cNewLost(r, 12, 1, []int{2, 2})
+	ok := true
+	for _, op := range []string{"init", "alloc 0 1000", "mig 0 1000 1", "mig 0 1000 0", "mig 0 1000 1", "mig 0 1000 0"} {
+		if ok = c.step(op); !ok {
+			break
+		}
+	}
+	c.finish()
+	mapped := len(c.s.entries())
+	r.Checked("conserve.mig_leak_witness")
+	if !ok && c.lastOut == "fault:oom" && mapped == 1 {
+		r.Failf("C10.conserve.leak.migration_oom", c.line(),
+			"a 1-page buffer migrated between two 2-page GPUs: the fourth migration panics `out of memory` with %d page mapped and %d pages neither free nor mapped (preparePageForMigration / AllocatePageWithGivenVAddr never give the replaced page back, not even when the migration is complete)",
 			mapped, len(c.lost))
 	} else {
-		r.Note("C10 remap leak witness no longer reproduces: ok=%v out=%s mapped=%d", ok, c.lastOut, mapped)
+		r.Note("C10 migration leak witness no longer reproduces: ok=%v out=%s mapped=%d lost=%d", ok, c.lastOut, mapped, len(c.lost))
 	}
 }
 
@@ -456,7 +523,8 @@ func (d *c10cDev) alloc(pages []uint64, blk uint64) {
 
 // oracle: statements of buddy_conservation / buddy_round_trip on the real state
 func (d *c10cDev) oracle() {
-	if !d.pow2 || d.am0 || d.failed {
+	// (a request for no page is no exception any more: the repaired allocateMultiplePages(0) takes nothing)
+	if !d.pow2 || d.failed {
 		return
 	}
 	total := d.size / 4096
@@ -857,8 +925,9 @@ func c10cTracedRandom(r *Run, rng *Rng, idx int) {
 	t.finish("driver")
 }
 
-// allocateMultiplePages(0): a Remap of 0 bytes on a buddy-managed GPU takes a one-page block, records a
-// tracker with no page and returns no page — the block can never be released (known finding)
+// allocateMultiplePages(0): before the repair a Remap of 0 bytes on a buddy-managed GPU took a one-page block,
+// recorded a tracker with no page and returned no page — the block could never be released (known finding
+// C10.buddy.round_trip.am0, reported again if the old behaviour comes back). Now it takes nothing.
 func c10cAmZeroWitness(r *Run) {
 	t := c10cNewTraced(r, 1, []int{2}, true)
 	ok := true
@@ -872,11 +941,15 @@ func c10cAmZeroWitness(r *Run) {
 	bl := d.blocks()
 	r.Checked("buddy.round_trip.am0_witness")
 	whole := len(bl) == 1 && bl[0][0] == d.base && bl[0][1] == 0
-	if ok && d.am0 && len(t.s.entries()) == 0 && !whole {
+	switch {
+	case ok && d.am0 && len(t.s.entries()) == 0 && !whole:
 		r.Failf("C10.buddy.round_trip.am0", d.line()+"   ["+d.ctx()+"]",
 			"nothing is mapped and every buffer is freed, but the 2-page GPU is not one free block: free blocks %v — the block taken by allocateMultiplePages(0) has no tracked page and is never released", bl)
-	} else {
-		r.Note("C10 buddy am0 witness no longer reproduces: ok=%v am0=%v whole=%v blocks=%v", ok, d.am0, whole, bl)
+	case !ok || !d.am0 || !whole:
+		r.Failf("C10.buddy.round_trip.am0_witness", d.line()+"   ["+d.ctx()+"]",
+			"alloc a page, Remap 0 bytes, free the page on a 2-page buddy GPU: ok=%v, allocateMultiplePages(0) recorded=%v, whole device free=%v, blocks %v", ok, d.am0, whole, bl)
+	default:
+		r.Count("buddy.round_trip.am0_witness.repaired")
 	}
 }
 
@@ -886,6 +959,7 @@ func runC10Cons(r *Run, rng *Rng, replay string) {
 	rng = NewRng(rng.U64() ^ (r.Seed << 32) ^ 0xC0115E)
 	// (A)
 	c10cLeakWitness(r)
+	c10cMigLeakWitness(r)
 	for _, ops := range [][]string{
 		{"init", "alloc 0 2800", "free 0 1000", "alloc 0 3000"},
 		{"init", "init", "alloc 0 64", "alloc 1 64", "free 0 1000"},
